@@ -87,6 +87,87 @@ func integrityOracle(ts TxnSchema, d []DumpRow) string {
 	return ""
 }
 
+// weakMinOracle: a committed transaction must not leave a weak-reference column with fewer elements than
+// its minimum by pruning references to rows it removed (it has to be rejected instead). A column the
+// transaction's own operations wrote to is left alone: its cardinality is C03's and the schema's business.
+func weakMinOracle(ts TxnSchema, before, after []DumpRow, txn TxnJ) string {
+	written := map[string]bool{}
+	for _, o := range txn.Ops {
+		for c := range o.Row {
+			written[o.Table+"."+c] = true
+		}
+		for _, m := range o.Mutations {
+			written[o.Table+"."+m.Col] = true
+		}
+	}
+	count := func(v *Value) int {
+		if v == nil {
+			return 0
+		}
+		switch v.K {
+		case 'S':
+			return len(v.S)
+		case 'M':
+			return len(v.M)
+		case 'o':
+			if v.O != nil {
+				return 1
+			}
+			return 0
+		}
+		return 1
+	}
+	prev := map[string]DumpRow{}
+	for _, r := range before {
+		prev[r.Table+"/"+r.UUID] = r
+	}
+	for _, r := range after {
+		t := ts.Spec.Table(r.Table)
+		p, had := prev[r.Table+"/"+r.UUID]
+		if !had {
+			// a row inserted by this transaction (and written by nothing else in it): what the insert gave met
+			// the minimum, what is stored does not
+			var ins *OperationJ
+			writers := 0
+			for i := range txn.Ops {
+				o := &txn.Ops[i]
+				if o.Table == r.Table && (o.Op == "update" || o.Op == "mutate") {
+					writers++
+				}
+				if o.Op == "insert" && o.Table == r.Table && o.UUID == r.UUID {
+					ins = o
+				}
+			}
+			if ins == nil || writers > 0 {
+				continue
+			}
+			for _, c := range t.Cols {
+				weak := (c.RefTable != "" && c.RefType == "weak") || (c.ValRefTable != "" && c.ValRefType == "weak")
+				if !weak || c.Type.Min < 1 || c.Type.Kind == "opt" {
+					continue
+				}
+				given := ins.Row[c.Name]
+				if given != nil && count(given) >= c.Type.Min && count(r.Row[c.Name]) < c.Type.Min {
+					return fmt.Sprintf("column %s of the inserted row %s/%s holds %d element(s) after the commit, its minimum is %d (the insert gave %d)",
+						c.Name, r.Table, r.UUID, count(r.Row[c.Name]), c.Type.Min, count(given))
+				}
+			}
+			continue
+		}
+		for _, c := range t.Cols {
+			weak := (c.RefTable != "" && c.RefType == "weak") || (c.ValRefTable != "" && c.ValRefType == "weak")
+			if !weak || c.Type.Min < 1 || c.Type.Kind == "opt" || written[r.Table+"."+c.Name] {
+				continue
+			}
+			if count(r.Row[c.Name]) < c.Type.Min && count(p.Row[c.Name]) >= c.Type.Min {
+				return fmt.Sprintf("column %s of row %s/%s holds %d element(s) after the commit, its minimum is %d (it held %d before; the transaction did not write to it)",
+					c.Name, r.Table, r.UUID, count(r.Row[c.Name]), c.Type.Min, count(p.Row[c.Name]))
+			}
+		}
+	}
+	return ""
+}
+
 // refsFromDump: the reference index a database holding exactly these rows must have.
 func refsFromDump(ts TxnSchema, d []DumpRow) []RefJ {
 	idx := map[string]*RefJ{}
@@ -415,6 +496,16 @@ func runTxnProp(r *Run, prop string) {
 				r.Violation("txn", cs, dumpCanon(after), "", true, "referential integrity violated after commit: "+why, "")
 				bad = true
 				break
+			}
+			if prop == "C04" && !failed {
+				if why := weakMinOracle(ts, before, after, txn); why != "" {
+					r.Case("txn", key)
+					cs["txns"] = shrinkHistory(ts, txns, prop)
+					cs["shrunk"] = true
+					r.Violation("txn", cs, dumpCanon(after), "rejected with a constraint violation", true, "pruning weak references left a column below its minimum: "+why, "")
+					bad = true
+					break
+				}
 			}
 			if prop == "C04" {
 				if got, want := refsCanon(refs), refsCanon(refsFromDump(ts, after)); got != want {
